@@ -130,3 +130,191 @@ def sweep_c01(tier, seed):
     # nout = -1 picks the last output directory
     return {"status": "violation" if viol else "ok", "cases": n, "distinct": n, "violations": viol,
             "samples": [{"seed": seed * 1009}], "kind": "bounded-native"}
+
+
+# --------------------------------------------------------------------------------------
+# C13: subset loads equal projections of the full load
+# --------------------------------------------------------------------------------------
+def _flat(np, osy, group):
+    """name -> numpy array for every leaf Array of a group (Vector components as name_c)"""
+    out = {}
+    for k in group.keys():
+        v = group[k]
+        if isinstance(v, osy.Vector):
+            for c, a in v._xyz.items():
+                out[k + "." + c] = (np.asarray(a.values), str(a.unit))
+        else:
+            out[k] = (np.asarray(v.values), str(v.unit))
+    return out
+
+
+def _same(np, a, b):
+    return a[1] == b[1] and a[0].shape == b[0].shape and np.array_equal(a[0], b[0])
+
+
+def subset_case(seed):
+    import contextlib
+    import io
+
+    import numpy as np
+    import osyris
+
+    rw = _writer()
+    rng = random.Random(seed)
+    ndim = rng.choice([1, 2, 3])
+    ncpu = rng.choice([1, 2, 3])
+    levelmin, levelmax = 2, rng.choice([2, 3])
+    hydro_vars = ["density"] + ["velocity_%s" % c for c in "xyz"[:ndim]] + ["pressure", "scalar_00"]
+    tmp = tempfile.mkdtemp(prefix="c13_")
+    try:
+        octs = rw.build_tree(ndim, levelmin, levelmax, rng=rng, ncpu=ncpu, variables=hydro_vars)
+        npart = {c: rng.randint(0, 6) for c in range(1, ncpu + 1)}
+        particles = {c: {"mass": np.arange(n, dtype="float64") + 10 * c, "identity": (np.arange(n) + 100 * c).astype("int32"),
+                         "position_x": np.linspace(0.1, 0.9, n) if n else np.zeros(0)} for c, n in npart.items()}
+        rw.write_output(tmp, 1, octs, ndim=ndim, ncpu=ncpu, levelmin=levelmin, levelmax=levelmax, hydro_vars=hydro_vars,
+                        ghosts=rw.random_ghosts(octs, ncpu, rng) if ncpu > 1 else None, particles=particles)
+        with contextlib.redirect_stdout(io.StringIO()):
+            full = osyris.RamsesDataset(1, path=tmp).load()
+        ref = {g: _flat(np, osyris, full[g]) for g in full.keys()}
+        desc = {"seed": seed, "ndim": ndim, "ncpu": ncpu, "levelmax": levelmax}
+        mesh_names = ["level", "cpu", "dx"] + ["position_%s" % c for c in "xyz"[:ndim]] + hydro_vars
+        trials = []
+        for k in range(4):
+            sub = rng.sample(mesh_names, rng.randint(1, min(6, len(mesh_names))))
+            trials.append({"mesh": sub})
+        trials += [["mesh"], ["part"], {"part": False}, {"mesh": False}, {"part": ["mass"]}, {"mesh": ["density"], "part": ["identity"]}]
+        for sel in trials:
+            with contextlib.redirect_stdout(io.StringIO()):
+                ds = osyris.RamsesDataset(1, path=tmp).load(select=sel)
+            got = {g: _flat(np, osyris, ds[g]) for g in ds.keys()}
+            # requested variables identical to the full load
+            for g, vars_ in got.items():
+                for name, val in vars_.items():
+                    # a component left un-merged keeps its scalar name; compare with the full load's component
+                    cands = [name, name.replace("_x", ".x").replace("_y", ".y").replace("_z", ".z")]
+                    base = name.split(".")[0]
+                    if name in ref.get(g, {}):
+                        refv = ref[g][name]
+                    else:
+                        alt = None
+                        for c in "xyz":
+                            if name.endswith("_" + c) and (name[:-2] + "." + c) in ref.get(g, {}):
+                                alt = ref[g][name[:-2] + "." + c]
+                        if alt is None and name == "mass" and g == "mesh":
+                            continue  # derived variable needs density and dx
+                        if alt is None:
+                            return {"what": "variable %s/%s of a subset load does not exist in the full load (select=%r)" % (g, name, sel), "input": desc}
+                        refv = alt
+                    if not _same(np, val, refv):
+                        return {"what": "variable %s/%s differs from the full load (select=%r)" % (g, name, sel), "input": desc}
+            # nothing excluded is returned
+            if isinstance(sel, dict):
+                for g, spec in sel.items():
+                    if spec is False and g in got and got[g]:
+                        return {"what": "group %s switched off but returned (select=%r)" % (g, sel), "input": desc}
+                    if isinstance(spec, list) and g in got:
+                        for name in got[g]:
+                            base = name.split(".")[0]
+                            allowed = set(spec) | {s[:-2] for s in spec if s[-2:] in ("_x", "_y", "_z")} | {"mass", "position"}
+                            if base not in allowed and name not in spec:
+                                return {"what": "excluded variable %s/%s returned (select=%r)" % (g, name, sel), "input": desc}
+            elif isinstance(sel, list):
+                for g in got:
+                    if g not in sel and got[g]:
+                        return {"what": "group %s not requested but returned (select=%r)" % (g, sel), "input": desc}
+        return None
+    finally:
+        shutil.rmtree(tmp, ignore_errors=True)
+
+
+def merge_case(names, ndim):
+    """make_vector_arrays on concrete names against the merge rule of the statement"""
+    import numpy as np
+    import osyris
+    from osyris.io.utils import make_vector_arrays
+
+    from contracts.c13_spec import merge_spec
+
+    pool = {n: osyris.Array(values=np.arange(3.0) + k, unit="m") for k, n in enumerate(names)}
+    data = dict(pool)
+    vectors, kept = merge_spec(list(names), ndim)
+    make_vector_arrays(data, ndim=ndim)
+    for k in kept:
+        if k not in data or data[k] is not pool[k]:
+            return "name set %s, ndim %d: variable %r lost or replaced" % (list(names), ndim, k)
+    for v, group in vectors.items():
+        if v in kept:
+            continue
+        got = data.get(v)
+        if not isinstance(got, osyris.Vector) or got.nvec != ndim:
+            return "name set %s, ndim %d: %r is not a %d-vector" % (list(names), ndim, v, ndim)
+    extra = [k for k in data if k not in kept and k not in vectors]
+    if extra:
+        return "name set %s, ndim %d: unexpected keys %s" % (list(names), ndim, extra)
+    return None
+
+
+def replay_subset(case, model, rec):
+    for s in range(6):
+        try:
+            r = subset_case(900 + s)
+        except Exception as e:
+            r = {"what": "exception %r" % (e,), "input": {"seed": 900 + s}}
+        if r:
+            return {"reproduced": True, "input": r["input"], "observed": r["what"]}
+    return {"reproduced": False}
+
+
+def replay_merge(case, model, rec):
+    import itertools
+
+    from contracts.c13_spec import ALPHABET
+
+    for ndim in (1, 2, 3):
+        for size in range(0, 4):
+            for names in itertools.combinations(ALPHABET, size):
+                r = merge_case(names, ndim)
+                if r:
+                    return {"reproduced": True, "input": {"names": list(names), "ndim": ndim}, "observed": r}
+    return {"reproduced": False}
+
+
+def sweep_c13(tier, seed):
+    import itertools
+
+    from contracts.c13_spec import ALPHABET
+
+    viol, cases = [], 0
+    n = 6 if tier == "quick" else 80
+    for k in range(n):
+        cases += 1
+        try:
+            r = subset_case(seed * 4111 + k)
+        except Exception as e:
+            import traceback
+
+            r = {"what": "exception %r %s" % (e, traceback.format_exc(limit=3)), "input": {"seed": seed * 4111 + k}}
+        if r:
+            viol.append({"name": "C13.native.subset", "input": r["input"], "observed": r["what"]})
+            break
+    maxsize = 3 if tier == "quick" else 5
+    done = False
+    for ndim in (1, 2, 3):
+        for size in range(0, maxsize + 1):
+            for names in itertools.combinations(ALPHABET, size):
+                cases += 1
+                r = merge_case(names, ndim)
+                if r:
+                    clash = "lost or replaced" in r
+                    viol.append({"name": "C13.native.merge.clash" if clash else "C13.native.merge", "input": {"names": list(names), "ndim": ndim}, "observed": r})
+                    done = True
+                    break
+            if done:
+                break
+        if done:
+            break
+    first = {}
+    for v in viol:
+        first.setdefault(v["name"], v)
+    return {"status": "violation" if viol else "ok", "cases": cases, "distinct": cases, "violations": list(first.values()),
+            "samples": [{"subset_seed": seed * 4111}], "kind": "bounded-native"}
